@@ -31,8 +31,12 @@ class C05(ProgProp):
         import zlib
         # one program in five keeps the dependencies of flushed batches (a debug option): a batch
         # flushed by item.value() inside a task then still holds its items while it is scheduled
-        if zlib.crc32(json.dumps(spec["templates"], sort_keys=True).encode()) % 5 == 0:
+        dg = zlib.crc32(json.dumps(spec["templates"], sort_keys=True).encode())
+        if dg % 5 == 0:
             spec["options"] = {"KEEP_DEPENDENCIES": True}
+        if (dg // 5) % 10 == 0:
+            spec["faults"]["before_hook_cancels"] = 1 + (dg // 50) % 3
+            spec["ctx_fault"] = True  # (the computation ends with asynq's BatchingError: no value oracle)
 
 
 PROP = C05()
